@@ -242,18 +242,20 @@ def tlc_error_trace_states(out):
 # ------------------------------------------------------------------ evidence / exit codes
 
 def write_evidence(pid, tier, seed, level, coverage, wall, violations=0, assumptions=None):
-    os.makedirs(os.path.join(VERIF, 'evidence'), exist_ok=True)
+    evdir = os.environ.get('VERIF_EVIDENCE_DIR') or os.path.join(VERIF, 'evidence')
+    os.makedirs(evdir, exist_ok=True)
     ev = {'property_id': pid, 'tier': tier, 'seed': seed, 'level': level, 'coverage': coverage,
           'assumptions': assumptions or [], 'wall_s': round(wall, 2), 'violations': violations}
-    with open(os.path.join(VERIF, 'evidence', pid + '.json'), 'w') as f:
+    with open(os.path.join(evdir, pid + '.json'), 'w') as f:
         json.dump(ev, f, indent=1, sort_keys=True)
     return ev
 
 
 def save_replay(pid, payload):
-    os.makedirs(os.path.join(VERIF, 'replays'), exist_ok=True)
+    rdir = os.environ.get('VERIF_REPLAY_DIR') or os.path.join(VERIF, 'replays')
+    os.makedirs(rdir, exist_ok=True)
     h = hashlib.sha1(json.dumps(payload, sort_keys=True).encode()).hexdigest()[:10]
-    path = os.path.join(VERIF, 'replays', '%s-%s.json' % (pid, h))
+    path = os.path.join(rdir, '%s-%s.json' % (pid, h))
     with open(path, 'w') as f:
         json.dump(payload, f, indent=1)
     return path
